@@ -482,8 +482,27 @@ func runC05(c *kit.Ctx) {
 			}
 			for _, st := range []int32{media.StreamNoConsumer, media.StreamReplaced} {
 				s := media.NewStream(fmt.Sprintf("/c05/idle/%d", ii), ic.sdp)
+				media.Regist(s) // as a pulled stream is when the idle task runs
 				ic.attach(s)
 				closed := media.VerifIdleDecision(s, st, ic.d)
+				if closed {
+					// an idle-closed stream must leave the registry: lookups, counts and listings show live streams only
+					if got := media.Get(s.Path()); got == s {
+						c.Violation("C05:idle:closed-stream-still-returned-by-lookup:"+ic.name, map[string]interface{}{"case": ic.name, "status": st})
+					}
+					if _, infos := media.Infos("", 100, false); func() bool {
+						for _, inf := range infos {
+							if inf.Path == s.Path() {
+								return true
+							}
+						}
+						return false
+					}() {
+						c.Violation("C05:idle:closed-stream-still-listed:"+ic.name, map[string]interface{}{"case": ic.name, "status": st})
+					}
+				} else if media.Get(s.Path()) != s {
+					c.Violation("C05:idle:live-stream-not-returned-by-lookup:"+ic.name, map[string]interface{}{"case": ic.name, "status": st})
+				}
 				c.Eval(1)
 				c.Distinct(fmt.Sprintf("idle/%s/%d", ic.name, st))
 				c.SetAdd("idle_cases", ic.name)
@@ -495,7 +514,7 @@ func runC05(c *kit.Ctx) {
 						c.Violation("C05:idle:closed-although-audience-present:"+ic.name, detail)
 					}
 				}
-				s.Close()
+				media.Unregist(s)
 			}
 		}
 	}
